@@ -1000,3 +1000,6 @@ func (w *World) boolTestAfter(g *FG, c *ssa.Call) (onTrue, onFalse int, ok bool)
 	}
 	return t, f, true
 }
+
+// isPinnedFunc: fn existed under this name on the pinned tree.
+func isPinnedFunc(fn *ssa.Function) bool { return fn != nil && pinnedFuncs[rawName(fn)] }
